@@ -38,7 +38,7 @@ def gen(rng, count, sizes):
         box = [f32(-6 + shx), f32(6 + shx), f32(-6 + shy), f32(6 + shy), f32(1.2e-3), f32(6.11e5)]
         if kind == "kick":
             axis = rng.choice("xy")
-            off = C.offset_family(rng, n, nb, rng.choice(["frac", "affine", "smooth", "wholerow"]),
+            off = C.offset_family(rng, n, nb, rng.choice(["frac", "affine", "smooth", "wholerow", "mixed"]),
                                   rng.choice([0.9, 2.5]))
             if same and axis == "y":
                 off = off[0:n] * nb   # identical bunches need identical displacement fields too
